@@ -198,6 +198,8 @@ func c04fFunctions(c *Ctx, r *rand.Rand) []*c04fFn {
 		add(&c04fFn{Op: "id", Pos: "slice-elem-any", Arity: 0, Fixed: "a", X: k}, fmt.Sprintf("func FN() any {\n\ts := []float64{%s}\n\treturn s[0]\n}", lit))
 		add(&c04fFn{Op: "id", Pos: "map-elem-any", Arity: 0, Fixed: "a", X: k}, fmt.Sprintf("func FN() any {\n\tm := map[string]float64{\"k\": %s}\n\treturn m[\"k\"]\n}", lit))
 		add(&c04fFn{Op: "id", Pos: "result-any", Arity: 0, Fixed: "a", X: k}, fmt.Sprintf("func FN_r() float64 { return %s }\nfunc FN() any { return FN_r() }", lit))
+		add(&c04fFn{Op: "id", Pos: "result-after-int-param-any", Arity: 0, Fixed: "a", X: k}, fmt.Sprintf("func FN_rp(x int, s string) float64 { return %s }\nfunc FN() any { return FN_rp(3, \"s\") }", lit))
+		add(&c04fFn{Op: "id", Pos: "method-result-any", Arity: 0, Fixed: "a", X: k}, fmt.Sprintf("func (s *S_f) FN_m(x uint8) float64 { return %s }\nfunc FN() any { return (&S_f{}).FN_m(1) }", lit))
 		add(&c04fFn{Op: "id", Pos: "decl-then-assign-any", Arity: 0, Fixed: "a", X: k}, fmt.Sprintf("func FN() any {\n\tvar x float64\n\tx = %s\n\treturn x\n}", lit))
 		add(&c04fFn{Op: "id", Pos: "field-assign-any", Arity: 0, Fixed: "a", X: k}, fmt.Sprintf("func FN() any {\n\ts := &S_f{}\n\ts.F = %s\n\treturn s.F\n}", lit))
 		add(&c04fFn{Op: "id", Pos: "slice-assign-any", Arity: 0, Fixed: "a", X: k}, fmt.Sprintf("func FN() any {\n\ts := make([]float64, 2)\n\ts[1] = %s\n\treturn s[1]\n}", lit))
